@@ -340,6 +340,7 @@ struct Worker {
    int slot = 0;
    std::string buf;
    long inflight = -1;      // index with a B but no E yet
+   long recycle_next = -1;  // the worker asked to be replaced by a fresh process starting at this index
    Clock::time_point began;
    std::string errfile;
    bool done = false;
@@ -365,8 +366,19 @@ struct BatchStats {
 void worker_main(const Scenario& sc, const Options& o, int slot, int nworkers, size_t start, size_t total,
                  size_t nprologue, int fd, Clock::time_point deadline)
 {
+   // Without the arena (tsan flavour) nothing returns a run's memory to the system: the sanitizer's allocator keeps it, and
+   // a worker that lives for a thousand runs was killed by the kernel at 31 GB.  Such a worker hands over to a fresh
+   // process every few runs ("R <next index>").
+   const size_t recycle_after = heap::available() ? 0 : 24;
+   size_t done_here = 0;
    for (size_t i = start; i < total; i += size_t(nworkers)) {
       if (Clock::now() > deadline) break;
+      if (recycle_after != 0 and done_here++ >= recycle_after) {
+         char note[64];
+         int n = std::snprintf(note, sizeof note, "R %zu\n", i);
+         (void) !write(fd, note, size_t(n));
+         return;
+      }
       char head[64];
       int n = std::snprintf(head, sizeof head, "B %zu\n", i);
       (void) !write(fd, head, size_t(n));
@@ -401,6 +413,7 @@ void spawn_worker(Worker& w, const Scenario& sc, const Options& o, int nworkers,
    w.fd = fds[0];
    w.buf.clear();
    w.inflight = -1;
+   w.recycle_next = -1;
    w.done = false;
 }
 
@@ -457,6 +470,7 @@ BatchStats run_batch(const Scenario& sc, const Options& o, size_t nprologue, siz
          w.inflight = -1;
       }
       else if (line[0] == 'D') w.done = true;
+      else if (line[0] == 'R') { w.done = true; w.recycle_next = std::strtol(line.c_str() + 2, nullptr, 10); }
    };
    size_t active = 0;
    for (auto& w : ws) if (w.pid > 0) ++active;
@@ -489,13 +503,27 @@ BatchStats run_batch(const Scenario& sc, const Options& o, size_t nprologue, siz
          w.pid = -1;
          --active;
          const bool clean = w.done and WIFEXITED(status) and WEXITSTATUS(status) == 0;
-         if (clean) { unlink(w.errfile.c_str()); continue; }
+         if (clean) {
+            unlink(w.errfile.c_str());
+            if (w.recycle_next >= 0 and size_t(w.recycle_next) < total and Clock::now() < deadline) {
+               const size_t next = size_t(w.recycle_next);
+               w.recycle_next = -1;
+               spawn_worker(w, sc, o, nworkers, next, total, nprologue, deadline);
+               ++active;
+            }
+            continue;
+         }
          if (w.inflight >= 0) {
             // attribute the death to the seed that has a B without an E
             std::string err = read_file(w.errfile);
             RunResult r;
-            r.crashed = true;
-            r.verdict = Verdict::fail(classify_crash(sc.id(), status, err), one_line(err.substr(0, 600)));
+            if (WIFSIGNALED(status) and WTERMSIG(status) == SIGKILL) {
+               // killed from outside (the kernel's out-of-memory killer): a resource limit of the harness, not a verdict
+               r.verdict = Verdict::skip("worker killed by SIGKILL (out of memory)");
+            } else {
+               r.crashed = true;
+               r.verdict = Verdict::fail(classify_crash(sc.id(), status, err), one_line(err.substr(0, 600)));
+            }
             absorb(bs, size_t(w.inflight), r, false);
             size_t next = size_t(w.inflight) + size_t(nworkers);
             if (next < total and Clock::now() < deadline and bs.crashes < 200) {
